@@ -270,6 +270,37 @@ def sign_attrs(rep, res, entry):
                               config=res.config)
 
 
+def variable_sign(rep, res, entry):
+    """a sign attribute of the intensity VARIABLE (pos / nonneg = an implicit constraint x ≥ 0) may only be declared when the lower
+    bounds allow it: whatever decides the declaration must look at lb"""
+    for o in res.heap.values():
+        if o.kind != "cvxvar":
+            continue
+        kws = o.attrs.get("decl_kws") or {}
+        cand = [kws[k] for k in ("pos", "nonneg", "**") if k in kws]
+        if not cand:
+            continue
+        maybe_set = any(not (v.known and not v.const) for v in cand)
+        if not maybe_set:
+            continue
+        deps = set()
+        for v in cand:
+            deps |= {x.split("|")[0] for x in v.flat().deps_all()}
+        for g in o.attrs.get("decl_guards") or ():
+            if len(g) > 4 and g[4]:
+                deps |= {x.split("|")[0] for x in g[4]}
+        if not ({"lb", "ub", "self.lb", "self.ub"} & deps):
+            continue            # not a bound-dependent declaration (e.g. an auxiliary variable): other rules
+        ok = bool({"lb", "self.lb"} & deps)
+        node = getattr(o, "node", None)
+        rep.check("R-SIGN", "the sign attribute of the intensity variable is decided by the lower bounds", ok,
+                  where=f"{o.fn.module.relpath}:{o.node.lineno}" if node is not None and getattr(o, "fn", None) is not None else res.fn.loc(),
+                  construct=norm_text(o.node)[:80] if node is not None else "cp.Variable(…, **kwargs)", entry=entry, config=res.config,
+                  msg=f"the variable is declared positive under a condition on {sorted(deps & {'ub', 'self.ub'})} only: with negative lower bounds "
+                      f"(and non-negative upper bounds) the implicit x ≥ 0 cuts off the admissible negative intensities — in-gamut targets are "
+                      f"not reproduced")
+
+
 def forwards(rep, res, entry, callee_names, need, rule="R-FORWARD", exact=True):
     """The call(s) from the entry into the fitting layer bind each parameter in `need` (dict callee-param ->
     required origin) to a value that DATA-depends on that origin."""
@@ -526,6 +557,7 @@ def every_row_solved(rep, res, entry):
 def hygiene(rep, res, entry, shape=True, purity=True, dtype=True, value=True, refresh=True):
     """Rules that apply to every fitting entry point."""
     every_row_solved(rep, res, entry)
+    variable_sign(rep, res, entry)
     R.rule_no_global_state(rep, res, entry)
     R.rule_extent_coincidence(rep, res, entry)
     R.rule_block_cover(rep, res, entry)
